@@ -48,3 +48,38 @@ def c08_trap(inp, obligation):
             if bad:
                 return True, {"input": tried[-1], "note": "level clamped to <= 8 for replay" if level != inp.get("level") else ""}
     return False, {"tried": len(tried)}
+
+
+@handler("C08.tensor")
+def c08_tensor(inp, obligation):
+    """the real tensor grid (TrapezoidalGrid) on the counter-model's domain / sub-box / level vector, with both settings of the (single) boundary flag:
+    per dimension the reported count equals the number of coordinates and of weights and the count the 1-D grid announces; points inside the sub-box"""
+    import numpy as np
+    from sparseSpACE.Grid import TrapezoidalGrid
+    nd = int(inp["ndim"])
+    a, b = [float(x) for x in inp["a"]], [float(x) for x in inp["b"]]
+    boxes = [([float(x) for x in inp["start"]], [float(x) for x in inp["end"]])]
+    boxes += [(list(a), list(b)), (list(a), [0.5 * (x + y) for x, y in zip(a, b)]), ([0.5 * (x + y) for x, y in zip(a, b)], list(b)),
+              ([x + 0.25 * (y - x) for x, y in zip(a, b)], [x + 0.5 * (y - x) for x, y in zip(a, b)])]
+    levels = [[int(max(0, min(l or 0, 6))) for l in inp["level"]]] + [[1] * nd, [2] * nd, list(range(1, nd + 1)), list(range(nd, 0, -1))]
+    bad, tried = [], 0
+    for boundary in sorted(set(bool(x) for x in inp["boundary"]) | {True, False}):
+        for start, end in boxes:
+            if not all(a[d] <= start[d] < end[d] <= b[d] for d in range(nd)):
+                continue
+            for lv in levels:
+                tried += 1
+                g = TrapezoidalGrid(np.array(a), np.array(b), boundary=boundary)
+                g.setCurrentArea(np.array(start), np.array(end), list(lv))
+                announced = list(g.levelToNumPoints(list(lv)))
+                for d in range(nd):
+                    n = int(g.numPoints[d])
+                    c, w = g.coordinate_array[d], g.weights[d]
+                    ctx = "(boundary=%r box %r..%r levels %r dim %d)" % (boundary, start, end, lv, d)
+                    if len(c) != n or len(w) != n or int(announced[d]) != n:
+                        bad.append("reports %d points, returns %d coordinates and %d weights, the 1-D grid announces %d %s" % (n, len(c), len(w), int(announced[d]), ctx))
+                    elif len(c) and not (boundary is False and n == 1) and not (min(c) >= start[d] - 1e-12 * max(1, abs(start[d])) and max(c) <= end[d] + 1e-12 * max(1, abs(end[d]))):
+                        bad.append("points outside the sub-box %s" % ctx)
+                if bad:
+                    return True, {"violations": bad[:4]}
+    return False, {"tried": tried}
